@@ -642,6 +642,37 @@ def search_exact(res, tier, boost, rng):
                          rule_leg=enc_rule1(*gl))
                     break
 
+    # TWO different orders, `Slobodeckij(N_poly_1_4, N_poly_1_2)` (ErrorEstimator passes a tuple of orders): each routine
+    # must be exact to half ITS OWN order; a rule asked for with the other routine's order gets the 1-point stand-in
+    for N14, N12 in ([(1, 5), (5, 1), (3, 7)] if tier == 'quick' and not boost else [(1, 5), (5, 1), (3, 7), (7, 3), (1, 9), (9, 5), (5, 9)]):
+        g14 = interpolatory_rule(rng, N14 + 1, lambda k: F(2, 2 * k + 1))
+        gx = interpolatory_rule(rng, N12 + 1, lambda k: F(1, k + 2))
+        gl = interpolatory_rule(rng, N12 + 1, lambda k: F(1, k + 1))
+        other = ([F(1, 2)], [F(1)])
+        with patched_rules({N14: g14, 'other': other}, {N12: gl, 'other': other}, {N12: gx, 'other': other}) as Slobodeckij:
+            S2 = Slobodeckij(N14, N12)
+        for _ in range(reps):
+            a, h = rand_q(rng), rng.choice(SQUARES)
+            root = (Q(h)**0.5).v
+            for deg in range((max(N14, N12) - 1) // 2 + 1):
+                c = [rand_q(rng) for _ in range(deg)] + [F(rng.choice([-3, -1, 1, 2, 5]), rng.choice([1, 2, 3]))]
+                f = poly_fun(c)
+                info = dict(N_poly_1_4=N14, N_poly_1_2=N12, coeffs=[q2s(v) for v in c], a=q2s(a), h=q2s(h))
+                if deg <= (N14 - 1) // 2:
+                    got, want = S2.seminorm_h_1_4(f, Q(a), Q(a + h)).v / root, ref14_over_sqrt_h(c, a, h)
+                    res.count(('x14-two-orders', N14, N12, tuple(c), a, h), deg >= 1)
+                    if got != want:
+                        fail('C14:h14-closed-form-exact-rule:two-orders', got_over_sqrt_h=q2s(got), want_over_sqrt_h=q2s(want), **info)
+                if deg <= (N12 - 1) // 2:
+                    got, want = S2.seminorm_h_1_2(f, Q(a), Q(a + h)).v, ref12(c, a, a + h)
+                    res.count(('x12-two-orders', N14, N12, tuple(c), a, h), deg >= 1)
+                    if got != want:
+                        fail('C14:h12-closed-form-exact-rule:two-orders', got=q2s(got), want=q2s(want), **info)
+                    d = rng.choice(UNIT_DIRS)
+                    sg = SegGamma(rand_q(rng), rand_q(rng), d[0], d[1], rand_q(rng), wrap=Q)
+                    got_g = S2.seminorm_h_1_2(lambda x, gamma: f(x), Q(a), Q(a + h), sg).v
+                    if got_g != got:
+                        fail('C14:curve-aware-ne-flat-exact:two-orders', curve=q2s(got_g), flat=q2s(got), seg=sg.enc(), **info)
     # invariances hold for every rule with non-negative weights and nodes in (0,1): random stand-in rules,
     # arbitrary (non-polynomial) data
     for _ in range(8 if tier == 'quick' and not boost else 150):
